@@ -109,6 +109,11 @@ class Check:
         return sum(1 for i in self.instances if i["rule"] == rule)
 
     # ---------------------------------------------------------------- output
+    def unlisted(self) -> list:
+        """Findings that are not recorded in known_findings.json."""
+        keys = {(k["property"], k["rule"], k["construct"], k["statement"]) for k in load_known().get("findings", [])}
+        return [f for f in self.findings if f.key() not in keys]
+
     def finish(self, write_evidence: bool = True, quiet: bool = False) -> int:
         known = load_known()
         known_keys = {
